@@ -73,6 +73,10 @@ def run_history(evs, glue=False):
                 pend += build_frame_bytes(0x00070000, b"\x09", 0xC0 | (ev[1] << 2))
                 if not glue:
                     flush()
+            elif ev[0] == "r":
+                # the library's own "a deliberate reset is in progress" mark (public setter; ZBOSS.reset() sets it before it
+                # sends the reset request): closing the link resets the numbering whether or not it is set
+                proto.reset_flag = True
             elif ev[0] == "c":
                 loop.advance(U.ACK_TIMEOUT + 0.001)
                 outstanding = False
@@ -97,6 +101,8 @@ def run_history(evs, glue=False):
 def model_line(evs):
     toks = []
     for ev in evs:
+        if ev[0] == "r":
+            continue            # the reset mark is not an event of the numbering model: it must change nothing
         if ev[0] == "s":
             toks.append("s:%d:%s" % (ev[1], hexs(ev[2])))
         elif ev[0] in ("a", "d"):
@@ -134,6 +140,8 @@ def gen_history(rng, depth):
         elif r < 0.93:
             evs.append(("d", rng.randrange(4)))
         else:
+            if rng.random() < 0.4:
+                evs.append(("r",))
             evs.append(("c",))
     return evs
 
@@ -303,6 +311,15 @@ def run(chk):
             hist.append(list(combo))
     for _ in range(1500 if thorough else 250):
         hist.append(gen_history(rng, rng.randrange(6, 15)))
+    # close + reconnect while the reset mark is set (what a deliberate NCP reset does), at every numbering state
+    S_ = ("s", 0x00010000, b"\x01")
+    for k in range(0, 5):
+        pre = []
+        for q in ([0, 1, 2, 3, 1][:k]):
+            pre += [S_, ("a", q)]
+        hist.append(pre + [("r",), ("c",), S_, ("a", 0), S_])
+        hist.append(pre + [S_, ("r",), ("c",), S_, ("a", 0), S_])
+        hist.append(pre + [("r",), S_, ("a", [0, 1, 2, 3, 1, 2][k]), ("c",), S_])
     mouts = chk.model.batch([model_line(e) for e in hist])
     tie_bad = mon_bad = glue_tie = glue_mon = None
     for evs, mo in zip(hist, mouts):
